@@ -71,7 +71,12 @@ def gen_case(rng, kind):
     c = {'kind': kind, 'family': fam, 'x': x, 'imf_opts': io, 'envelope_opts': eo, 'extrema_opts': xo, 'nprocesses': nps,
          'delay_seed': int(rng.integers(2 ** 31))}
     if kind == 'gnim':
-        c['z'] = float(rng.uniform(0.02, 0.45)) if rng.random() > .06 else 0.0     # (a zero-frequency mask is a constant offset amp*cos(phase))
+        c['z'] = float(rng.uniform(0.02, 0.45)) if rng.random() > .06 else 0.0
+        if rng.random() < .08:
+            # a whole fraction typed with six or seven decimals, on a longer record
+            c['z'] = float(gens.pick(rng, [0.142857, 0.333333, 0.166667, 0.4999999, 0.1111111, 0.0909091]))
+            c['x'] = gens.signal(rng, fam if fam in ('noise', 'walk', 'tones', 'amfm') else 'noise', int(rng.integers(2000, 5000)))
+            c['amp'] = float(c['x'].std())     # (a zero-frequency mask is a constant offset amp*cos(phase))
         # (the documented mask is amp*cos(2 pi z t + phase): a negative amplitude is a mask like any other, what an amplitude sweep hands in)
         c['amp'] = float(gens.pick(rng, [0.0, .1, 1, 3, -1, -.5])) * float(x.std())
         c['nphases'] = int(rng.integers(1, 9))
